@@ -43,6 +43,21 @@ def rand_frame_df(rng, df, n=None):
     return f
 
 
+def selfsimilar(rng, df, n=None):
+    """frames whose last three bytes (the parity / address-parity field) repeat an earlier part of the same frame, byte- or
+    nibble-aligned, for every position: any 24 bits are a legitimate AP field for SOME address, so these are ordinary frames -
+    but text-level shortcuts (replace / find / split on a substring of the message) trip over them"""
+    if n is None:
+        n = 14 if df >= 16 else 7
+    out = []
+    for k in range(0, 2 * (n - 3) - 5):                   # nibble offset of the copied 6-digit group
+        f = rand_frame_df(rng, df, n)
+        h = bytes(f).hex()
+        h = h[:2 * n - 6] + h[k:k + 6]
+        out.append(list(bytes.fromhex(h)))
+    return out
+
+
 def set_bits(frame, msb, lsb, value):
     """return copy of byte list with bits msb..lsb (1-based inclusive) set to value."""
     f = list(frame)
